@@ -71,6 +71,13 @@ func (rt *Router) Lookup(path string) (data interface{}, params Params, found bo
 // Build builds URL router from records.
 func (rt *Router) Build(records []Record) error {
 	statics, params := makeRecords(records)
+	for _, p := range params {
+		// the termination character marks the end of a key and a zero CHECK marks an unused element
+		// of the double array: neither can be a character of a key.
+		if key := p.Key[:len(p.Key)-1]; strings.IndexByte(key, TerminationCharacter) >= 0 || strings.IndexByte(key, 0) >= 0 {
+			return fmt.Errorf("denco: the key %q contains a reserved character (`%c' or NUL)", key, TerminationCharacter)
+		}
+	}
 	if len(params) > MaxSize {
 		return errors.New("denco: too many records")
 	}
@@ -199,6 +206,11 @@ func (da *doubleArray) lookup(path string, params []Param, idx int) (*node, []Pa
 			indices = append(indices, (uint64(i)<<indexOffset)|(uint64(idx)&indexMask))
 		}
 		c := path[i]
+		if isReserved(c) {
+			// in the trie these characters only label parameter, wildcard and termination edges
+			// (or mark an unused element): they can never be matched literally.
+			goto BACKTRACKING
+		}
 		if idx = nextIndex(da.bc[idx].Base(), c); idx >= len(da.bc) || da.bc[idx].Check() != c {
 			goto BACKTRACKING
 		}
@@ -216,7 +228,7 @@ BACKTRACKING:
 				break
 			}
 
-			next := NextSeparator(path, i)
+			next := nextPathSeparator(path, i)
 			nextParams := params
 			nextParams = append(nextParams, Param{Value: path[i:next]})
 			if nd, nextNextParams, found := da.lookup(path[next:], nextParams, nextIdx); found {
@@ -267,10 +279,11 @@ func (da *doubleArray) build(srcs []*record, idx, depth int, usedBase map[int]st
 				return err
 			}
 		case WildcardCharacter:
-			r := records[0]
-			name := r.Key[depth+1 : len(r.Key)-1]
-			r.paramNames = append(r.paramNames, name)
-			r.Key = ""
+			for _, r := range records {
+				name := r.Key[depth+1 : len(r.Key)-1]
+				r.paramNames = append(r.paramNames, name)
+				r.Key = ""
+			}
 			da.bc[idx].SetWildcardParam()
 			if err := da.build(records, nextIndex(base, sib.c), 0, usedBase); err != nil {
 				return err
@@ -376,6 +389,21 @@ type sibling struct {
 
 	// A character of sibling.
 	c byte
+}
+
+// isReserved reports whether c labels a parameter, wildcard or termination edge,
+// or is the NUL character that marks an unused element of the double array.
+func isReserved(c byte) bool {
+	return c == ParamCharacter || c == WildcardCharacter || c == TerminationCharacter || c == 0
+}
+
+// nextPathSeparator returns the index of the next segment separator in a looked up path.
+// Unlike NextSeparator, which scans keys, it does not stop at the termination character.
+func nextPathSeparator(path string, start int) int {
+	for start < len(path) && path[start] != SeparatorCharacter {
+		start++
+	}
+	return start
 }
 
 // nextIndex returns a next index of array of BASE/CHECK.
